@@ -42,6 +42,8 @@ type ask struct {
 	// Ctor: 0 AskNewGenerics, 1 AskNewByOptionsGenerics(caller-supplied unbuffered reply channel),
 	// 2 method form New, 3 method form NewByOptions(unbuffered)
 	Ctor int `json:"ctor"`
+	// ReplyBuf: capacity of the caller-supplied reply channel (Ctor 1 and 3)
+	ReplyBuf int `json:"replyBuf"`
 	// ReadDelayUs (AskChannel): the asker waits that long before it starts reading the reply channel
 	ReadDelayUs int `json:"readDelayUs"`
 	// TimeoutKind (never/late): 0 = 2ms, 1 = zero timeout, 2 = negative timeout (both expire at once)
@@ -65,7 +67,7 @@ func (s scenario) String() string {
 			if j > 0 {
 				sb.WriteByte(' ')
 			}
-			fmt.Fprintf(&sb, "%s/%s/c%d", apiNames[k.API][3:], latNames[k.Lat], k.Ctor)
+			fmt.Fprintf(&sb, "%s/%s/c%d.%d", apiNames[k.API][3:], latNames[k.Lat], k.Ctor, k.ReplyBuf)
 			if k.ReadDelayUs > 0 {
 				fmt.Fprintf(&sb, "/read+%dus", k.ReadDelayUs)
 			}
@@ -120,6 +122,9 @@ func genScenario(t *rapid.T) scenario {
 				a.DeltaUs = rapid.IntRange(-300, 300).Draw(t, "delta")
 			}
 			a.Ctor = rapid.IntRange(0, 3).Draw(t, "ctor")
+			if a.Ctor == 1 || a.Ctor == 3 {
+				a.ReplyBuf = rapid.SampledFrom([]int{0, 0, 1, 2}).Draw(t, "replyBuf")
+			}
 			if a.API == apiChannel {
 				a.ReadDelayUs = rapid.SampledFrom([]int{0, 0, 20, 200}).Draw(t, "readDelay")
 			}
@@ -150,6 +155,10 @@ func runScenario(s scenario) result {
 			next++
 		}
 	}
+	// the final probe ask (see below) is known to the actor from the start: the effect reads specs from
+	// the actor's goroutine, so the map must not be written once the actor runs
+	probeID := next
+	specs[probeID] = ask{API: apiOnce, Lat: latImmediate}
 	var actorPanic atomic.Value
 	var replyStarted, replyReturned int64
 	pending := map[int]*fpgo.AskDef[int, int]{} // actor goroutine only
@@ -221,11 +230,11 @@ func runScenario(s scenario) result {
 					var factory fpgo.AskDef[int, int]
 					switch sp.Ctor {
 					case 1:
-						a = fpgo.AskNewByOptionsGenerics[int, int](id, make(chan int))
+						a = fpgo.AskNewByOptionsGenerics[int, int](id, make(chan int, sp.ReplyBuf))
 					case 2:
 						a = factory.New(id)
 					case 3:
-						a = factory.NewByOptions(id, make(chan int))
+						a = factory.NewByOptions(id, make(chan int, sp.ReplyBuf))
 					default:
 						a = fpgo.AskNewGenerics[int, int](id)
 					}
@@ -349,8 +358,6 @@ func runScenario(s scenario) result {
 		return res
 	}
 	// the actor must still be alive and serving: a fresh immediate ask is answered
-	probeID := next
-	specs[probeID] = ask{API: apiOnce, Lat: latImmediate}
 	probe := make(chan int, 1)
 	go func() {
 		p, _ := vlib.Try(func() { probe <- fpgo.AskNewGenerics[int, int](probeID).AskOnce(actor) })
